@@ -11,6 +11,52 @@ ALL = [f"C{n:02d}" for n in range(1, 21)]
 
 # id -> (category, technique, level text, level note, design ref)
 CHECKS = {
+    "C09": (
+        "exploration",
+        "property-based testing (Hypothesis): constructed consistent taggings, expected destination per piece derived from the statement, located via the C02 core oracle (API and CLI file names)",
+        "Tagged PretextView-model maps (one/two haplotypes, Target mode, piece tags on any piece, haplotype-prefixed unplaced "
+        "scaffolds, spelling-case variation) are remapped; each piece's core and every left-over contig must be found in exactly "
+        "the assembly (API) / file (CLI) the statement assigns; one haplotype must not be split over assemblies differing in case.",
+        "Trusted: expected_destinations() in vf/props/c09.py (20 lines from the statement); runs ending in TaggingError/ChrNamerError are not judged (0.3%).",
+        "DESIGN.md section 5 / C09",
+    ),
+    "C10": (
+        "exploration",
+        "property-based testing (Hypothesis): validity predicate on names, ranks, order and CSV reports over tagged maps with many painted scaffolds; exact-length sub-domain",
+        "Per output assembly: unique names, autosomes <prefix>1..n without holes and non-increasing first-haplotype sequence length, "
+        "homologues share the group head's number (canonical layouts), name tags, unloc and haplotig numbering / size order, rank and "
+        "numeric-aware order, chromosome list and report CSVs. Ties are free. One open finding (KF-C10-1) is excluded by predicate.",
+        "Trusted: roles read from rank/original_name attributes of returned scaffolds, cross-checked with the map; the CLI sub-check is name-only.",
+        "DESIGN.md section 5 / C10",
+    ),
+    "C15": (
+        "fault_enumeration",
+        "stateful property-based testing (Hypothesis rule-based machine) for histories + exhaustive crash-point enumeration and harness-scheduled interleavings through a file-operation shim",
+        "Histories of rewrite/delete/age/auto_load with a harness-owned clock; for generated (FASTA, initial cache state, flush size) "
+        "EVERY crash point of the indexing run at file-operation / flush granularity is injected and a fresh load must be right or "
+        "raise; 2-3 virtual processes are interleaved one file operation at a time under drawn schedules. Fault enumeration is the "
+        "right level: the crash/schedule space per configuration is finite and enumerated or densely sampled, the configurations are sampled.",
+        "Trusted: vf/fsim.py (shim: completed operations persist, unflushed buffers are lost, reads atomic at open), ref.read_fasta. Power loss and kernel-level races are out of scope.",
+        "DESIGN.md section 5 / C15",
+    ),
+    "C16": (
+        "exploration",
+        "property-based testing (Hypothesis) over CLI runs: fresh run / --no-clobber with a generated pre-existing subset of sentinel files / default --clobber",
+        "For generated runs producing every kind of output file, a drawn non-empty subset of the outputs is pre-created with sentinel "
+        "bytes and old mtimes: --no-clobber must exit non-zero, name a colliding file and leave every sentinel untouched; the default "
+        "run over long sentinels must reproduce the fresh run byte for byte. 1 in 8 cases in a subprocess for the real exit status.",
+        "Trusted: byte and mtime comparison of files; click's CliRunner for in-process exit codes.",
+        "DESIGN.md section 5 / C16",
+    ),
+    "C17": (
+        "exploration",
+        "metamorphic property-based testing (Hypothesis) over process-level configurations: byte equality of all outputs with a baseline run",
+        "Generated tagged maps (several tags per scaffold, haplotype tags in two spellings) and real specimens are run under different "
+        "PYTHONHASHSEED values, working directories and relative/absolute arguments (subprocesses), cold/warm/stale caches, stream buffer "
+        "sizes, interleaved invocations in one process, and with the input supplied as FASTA, AGP or TPF; all outputs must agree.",
+        "Trusted: file comparison; log lines containing the run's absolute directories are dropped (the exclusion the statement allows).",
+        "DESIGN.md section 5 / C17",
+    ),
     "C03": (
         "exploration",
         "property-based testing (Hypothesis): differential against a reference 'apply AGP to FASTA' (API with injected reference index; CLI end to end)",
